@@ -7,9 +7,30 @@ CLAIMED = {
         technique="deterministic simulation: option-history programs with injected exits/faults vs a stack model",
         text="Seeded programs of nested global_options blocks (real with-statements, generator-held and decorated blocks) with set_options, invalid updates, mutation of returned dicts, every exception kind, early return/break, and exceptions injected inside real numpoly calls (line interrupt at position k, MemoryError at allocation k); a stack model of the option dict is compared with get_options() after every step. The enumerated family (depth 1-4 x 15 exit kinds x 7 inner actions x catch level) is covered completely in every run, the rest is seeded sampling: evidence, not proof.",
         note="Trusts CPython's contextlib and the harness's stack model (40 lines). Interrupts are never injected into frames of numpoly/option.py itself (asynchronous-exception atomicity of a context manager's own entry/exit code is more than C14 states). No thread/task interleavings (no property quantifies over schedules)."),
+
+    "C17": dict(level="fault_enumeration", ref="DESIGN.md §4 C17",
+        technique="deterministic simulation: fault injection at interior points of every public call (line interrupts, allocation failures, natural errors) with byte-level argument snapshots",
+        text="Every callable of a 164-entry catalogue (functions, numpy spellings, operators incl. reflected, methods, properties; optional keywords such as where=, print options) is called on generated arguments, including already-aligned operands that make internal aliasing possible, in four run classes: fault-free, natural error (spoiled arguments), asynchronous interrupt at executed line k of numpoly code (k from a fault-free dry run; thorough enumerates every k up to 1500 lines per call), MemoryError at allocation k (every k). All arguments are snapshotted byte-for-byte before and compared after, whatever the outcome; after a failed call the option dict and dispatch registries are re-checked.",
+        note="Cython frames are invisible to the line tracer (they run to completion). Explicit output targets (out=, copyto destination) are not generated. Arguments are freshly built contiguous arrays."),
+    "C18": dict(level="exploration", ref="DESIGN.md §4 C18",
+        technique="deterministic simulation: adversarial tie orders of the unstable sort (SortSeam) against a comparison-based reference sort and brute-force index enumeration",
+        text="glexsort key matrices (exhaustive small family plus random ones up to 4x400), glexindex/bindex/monomial/cross_truncate argument tuples; every case is executed under every tie policy of the stand-in for numpy's unstable argsort (stable, reversed, rotated, seeded permutations) and must equal the reference (Python sorted with the documented key; brute-force enumeration of the grid with exact rational norms) and be identical across policies. 'Platform-independent' is thereby checked over tie orders no single machine exhibits.",
+        note="Only module-level numpy.argsort/sort calls inside numpoly are interceptable; a method-form call would see this platform's real order (evidence reports seam consult counts). start<=stop and lower norm<=upper norm are generated; near-boundary points for norms .5/.8 are accepted either way."),
+    "C07": dict(level="exploration", ref="DESIGN.md §4 C07",
+        technique="deterministic simulation: tie-order seam x sort-option histories, documented-order oracle on canonical term dictionaries",
+        text="Pairs and triples of polynomial arrays biased to many same-degree terms (incl. unsigned/narrow dtypes and int64 extremes) are compared with all six operators, the numpy/numpoly spellings and maximum/minimum under all four sort settings (reached directly, through nested blocks or through set_options inside a block) and under adversarial tie policies; verdicts must equal the documented order computed independently of glexsort, satisfy trichotomy/antisymmetry/transitivity, and not depend on the tie policy.",
+        note="Names are generated in numeric-suffix order; no NaN/inf. Quick uses the stable policy plus one seeded adversarial policy per case, thorough all four."),
+    "C19": dict(level="exploration", ref="DESIGN.md §4 C19",
+        technique="deterministic simulation: tie-order seam x heap-content seam, leading-term oracle on canonical term dictionaries",
+        text="lead_exponent/lead_coefficient, sortable_proxy, argmax/argmin/amax/amin without axis, decompose, set_dimensions, isconstant/tonumpy on arrays with zero elements, equal leading terms and ties, executed under (tie policy, heap fill) environments; results must equal the reference computed from the term dictionaries and be identical across environments (no dependence on unstable-sort ties or on the bytes of fresh allocations).",
+        note="Real coefficients only. Tied proxy ranks may come in any order (not compared across environments)."),
+    "C16": dict(level="exploration", ref="DESIGN.md §4 C16",
+        technique="deterministic simulation: tie-order seam x display-option histories, independent text reader",
+        text="str and repr of generated arrays (units, negative/complex/bool coefficients, narrow dtypes, names to q12) under all display orders, alternative exponent/multiply signs (reached through option histories) and adversarial tie policies are read back by an independent tokenizer/evaluator over dictionary polynomials and must equal the polynomial; printed monomials must follow the selected order; text must not depend on the tie policy; to_sympy round trip for 0-d int/float polynomials. Chunks of runs share a process, so state leaking between prints (caches) is found and replayed with its history.",
+        note="numpy print options pinned to defaults; arrays below the summarisation threshold; the sympy clause runs under the default signs."),
 }
 
-PENDING = {k: "check under construction in this session; will be claimed (see DESIGN.md verdict table)" for k in ["C07","C11","C12","C13","C15","C16","C17","C18","C19","C20"]}
+PENDING = {k: "check under construction in this session; will be claimed (see DESIGN.md verdict table)" for k in ["C11","C12","C13","C15","C20"]}
 
 NOT_APPLICABLE = {
     "C01": "ring arithmetic is a pure function of the operands: no schedule, clock, fault, stream or global history in any clause; its one environment dependence (unwritten coefficients) is decided under C12",
